@@ -48,6 +48,10 @@ func main() {
 		if run.Thorough() {
 			jobs = append(jobs, job(&lockh.LeaseScenario{Kind: "kept", Lease: L, Holds: 2.5, RenewFaults: true}, vsched.Config{P: 0, F: 2, Preempt: fine, MaxSteps: 60000}))
 		}
+		// many transient renewal failures spread over one long tenure (each healed by its retry): the lease is kept
+		if L == leases[1] {
+			jobs = append(jobs, job(&lockh.LeaseScenario{Kind: "kept", Lease: L, Holds: 4.5, RenewFaults: true, ManyFaults: true}, vsched.Config{P: 0, F: 4, Preempt: fine, MaxSteps: 60000}))
+		}
 		// the context the lock was acquired with ends during the tenure (a storage that honours contexts): the lease is kept all the same
 		jobs = append(jobs, job(&lockh.LeaseScenario{Kind: "kept", Lease: L, Holds: 2.5, CtxEnds: true}, vsched.Config{P: pk, Preempt: fine, MaxSteps: 60000}))
 		for _, h := range []float64{0.3, 0.8, 1.6} {
